@@ -23,8 +23,8 @@ def placer(name):
     return {"sequential": lambda *a, **k: seq(*a), "hilbert": lambda *a, **k: hb(*a),
             "rcm": lambda *a, **k: rcm(*a), "breadth_first": lambda *a, **k: bf(*a),
             "rand": lambda *a, **k: rd(*a, random=k["random"]),
-            "sa_c": lambda *a, **k: sa(*a, effort=0.05, random=k["random"]),
-            "sa_py": lambda *a, **k: sa(*a, effort=0.05, random=k["random"], kernel=PythonKernel)}[name]
+            "sa_c": lambda *a, **k: sa(*a, effort=k.get("effort", 0.05), random=k["random"]),
+            "sa_py": lambda *a, **k: sa(*a, effort=k.get("effort", 0.05), random=k["random"], kernel=PythonKernel)}[name]
 
 
 def snap(objs):
@@ -52,7 +52,8 @@ def chain(call):
             mutated.append(name)
         return r
     args = dict(vres=vres, nets=nets, machine=machine, cons=cons)
-    pl = stage("place", lambda: placer(call["placer"])(vres, nets, machine, cons, random=rnd), args)
+    pl = stage("place", lambda: placer(call["placer"])(vres, nets, machine, cons, random=rnd,
+                                                          **({"effort": call["effort"]} if "effort" in call else {})), args)
     if pl is None:
         return out, mutated
     out["place"] = canon(pl)
@@ -112,6 +113,64 @@ def tables_call(call):
     except Exception as e:
         res = ["raised", type(e).__name__]
     return res, (["tables." + call["fn"]] if snap(table) != before else [])
+
+
+def wrapper_call(call):
+    """wrapper() / place_and_route_wrapper() on a generated problem; every argument object (the constraints list and
+    the keyword dictionaries included) is snapshotted before and after."""
+    import warnings
+    from rig.place_and_route.machine import Cores
+    from rig.place_and_route.constraints import ReserveResourceConstraint
+    from rig.place_and_route.wrapper import wrapper as w_wrapper, place_and_route_wrapper as w_pnr
+    from impl_c01 import system_info
+    warnings.simplefilter("ignore")
+    machine, vres, nets, cons, net_keys = pnr_gen.build(call["problem"])
+    core_res = Cores
+    if call["custom_cores"]:
+        core_res = "my-cores"
+        ren = lambda d: type(d)((core_res if k is Cores else k, v) for k, v in d.items())
+        vres = type(vres)((v, ren(r)) for v, r in vres.items())
+        machine.chip_resources = ren(machine.chip_resources)
+        machine.chip_resource_exceptions = type(machine.chip_resource_exceptions)(
+            (xy, ren(r)) for xy, r in machine.chip_resource_exceptions.items())
+        for k in cons:
+            if isinstance(k, ReserveResourceConstraint) and k.resource is Cores:
+                k.resource = core_res
+    apps = {v: "app" for v in vres}
+    random.seed(call["seed"])
+    pf = placer(call["placer"])
+    kwargs = dict(place=lambda *a, **k: pf(*a, random=None), core_resource=core_res)
+    args = dict(vres=vres, apps=apps, nets=nets, net_keys=[list(net_keys[n]) for n in nets], machine=machine)
+    if call["give_kwargs"]:
+        kwargs.update(place_kwargs={}, allocate_kwargs={}, route_kwargs={"radius": call["radius"]})
+        args.update(place_kwargs=kwargs["place_kwargs"], allocate_kwargs=kwargs["allocate_kwargs"],
+                    route_kwargs=kwargs["route_kwargs"])
+    if call["which"] == "wrapper":
+        target = machine
+        kwargs.update(reserve_monitor=call["reserve_monitor"], align_sdram=call["align_sdram"])
+        if not cons and not call["give_constraints"]:
+            pos = ()
+        else:
+            pos = (cons,)
+            args["constraints"] = cons
+        f = w_wrapper
+    else:
+        target = system_info(machine, core_res if call["custom_cores"] else None)
+        cons = [k for k in cons if not isinstance(k, ReserveResourceConstraint)]
+        args["system_info"] = dict(target)
+        if not cons and not call["give_constraints"]:
+            pos = ()
+        else:
+            pos = (cons,)
+            args["constraints"] = cons
+        f = w_pnr
+    before = snap(args)
+    try:
+        pl, al, amap, tables = f(vres, apps, nets, net_keys, target, *pos, **kwargs)
+        res = [canon(pl), canon(al), canon({a: dict(m) for a, m in amap.items()}), canon(dict(tables))]
+    except Exception as e:
+        res = ["raised", type(e).__name__]
+    return res, (["wrapper." + call["which"]] if snap(args) != before else [])
 
 
 def bitfield(call):
@@ -296,7 +355,7 @@ def boot_call(call):
     return res, (["boot.sv_overrides"] if snap(given) != before else [])
 
 
-KINDS = dict(tables=tables_call, boot=boot_call, reuse=reuse, chain=chain, covering=covering, bitfield=bitfield, controller=controller, machine=machine_defaults)
+KINDS = dict(wrapper=wrapper_call, tables=tables_call, boot=boot_call, reuse=reuse, chain=chain, covering=covering, bitfield=bitfield, controller=controller, machine=machine_defaults)
 
 if __name__ == "__main__":
     import implutil
